@@ -149,4 +149,9 @@ theorem C10_heard_only_from_own_address (now : Nat) (f : J1939.Frame) :
           simp only [List.getElem?_eq_getElem hj, Option.map_some, Option.some.injEq] at hx
           subst hx; exact Or.inl (by simpa using hh)
 
+/-- the timeout a unit is judged by is the one of ITS configuration entry: the constructor of the current source builds
+each known entry with `driver.timeout` of that very entry, and every unit has its own context (regenerated shape) -/
+theorem C10_units_keep_their_own_timeout : Consts.authorityBuildsEveryKnownEntry = true ∧ Consts.authorityUnitsHaveTheirOwnContext = true := by
+  decide
+
 end Glonax.Thm.C10
